@@ -28,6 +28,7 @@ import (
 	"strconv"
 	"strings"
 	"sync"
+	"sync/atomic"
 	"syscall"
 	"time"
 
@@ -84,6 +85,10 @@ type Case struct {
 	Target string `json:"target"` // controller | replica
 	State  State  `json:"state"`
 	Reqs   []Req  `json:"reqs"`
+	// Load (controller): four goroutines issue WriteAt / ReadAt through the controller while each request is
+	// in flight, so that a writer is almost always waiting for the controller lock (a handler that takes the
+	// read lock twice then deadlocks; on an idle controller it does not)
+	Load bool `json:"load,omitempty"`
 }
 
 type Res struct {
@@ -255,6 +260,8 @@ type child struct {
 	lastP   string
 	lastS   string
 	bodyLock string
+	ctrl    *controller.Controller
+	loadOn  int32
 }
 
 func (ch *child) serve(listen string, h http.Handler) error {
@@ -310,6 +317,7 @@ func (ch *child) setupController(st State, ipb int) error {
 	c := controller.NewController(controller.WithBackend(ff), controller.WithFrontend(fe, ""),
 		controller.WithName("vol"), controller.WithRF(rf))
 	ch.lock = c
+	ch.ctrl = c
 	ch.router = crest.NewRouter(crest.NewServer(c))
 	ch.ids["vol"] = base64.StdEncoding.EncodeToString([]byte("vol"))
 	n := len(st.Replicas) + st.Spare
@@ -567,6 +575,21 @@ func childMain(workdir string, ipb int) {
 		idl = append(idl, k+"="+v)
 	}
 	out.Encode(map[string]interface{}{"setup": "ok", "ids": idl})
+	if c.Load && ch.ctrl != nil {
+		for g := 0; g < 4; g++ {
+			go func(g int) {
+				buf := make([]byte, 4096)
+				for {
+					if atomic.LoadInt32(&ch.loadOn) == 1 {
+						ch.ctrl.WriteAt(buf, int64(g)*4096)
+						ch.ctrl.ReadAt(buf, int64(g)*4096)
+					} else {
+						time.Sleep(time.Millisecond)
+					}
+				}
+			}(g)
+		}
+	}
 	wedged := false
 	for _, r := range c.Reqs {
 		if wedged {
@@ -582,7 +605,12 @@ func childMain(workdir string, ipb int) {
 		ch.panicMu.Unlock()
 		t0 := time.Now()
 		ch.bodyLock = ""
+		if c.Load {
+			atomic.StoreInt32(&ch.loadOn, 1)
+			time.Sleep(5 * time.Millisecond)
+		}
 		st, body, rerr := ch.rawRequest(host, r, to)
+		atomic.StoreInt32(&ch.loadOn, 0)
 		res := Res{St: st, Ms: time.Since(t0).Milliseconds(), Body: body, BodyLock: ch.bodyLock}
 		if rerr != nil {
 			res.Err = rerr.Error()
